@@ -227,6 +227,37 @@ def helper_only_scripts():
     return out
 
 
+def main_loop_break_scripts():
+    """`break` / `continue` that would leave or restart the MAIN loop (loop() has no enclosing C++ loop): rejected, or else compilable."""
+    variants = [
+        "while True:\n    mon.write(1)\n    break\n",
+        "while True:\n    if count > 2:\n        break\n    count += 1\n",
+        "while True:\n    count += 1\n    if count > 1:\n        if count > 2:\n            break\n",
+        "while True:\n    try:\n        break\n    except:\n        count = 0\n",
+        "while True:\n    count += 1\n    if count > 5:\n        count = 0\n    elif count > 3:\n        break\n    else:\n        mon.write(count)\n",
+        "while True:\n    count += 1\n    if count > 5:\n        count = 0\n    else:\n        break\n",
+        "while True:\n    for i in range(3):\n        if i == 1:\n            break\n        mon.write(i)\n    sleep(5)\n",
+        "while True:\n    w = 3\n    while w > 0:\n        w -= 1\n        if w == 1:\n            break\n    sleep(5)\n",
+    ]
+    return [HDR + "count = 0\n" + v for v in variants]
+
+
+def declared_in_block_scripts():
+    """The only SerialMonitor of the script is declared inside a compound statement or a helper and used there / afterwards:
+    the port has to be opened (at that baud rate) before the first line is printed.
+    (Led / RGBLed / Servo / ... declared inside a block are outside the documented style - their state globals are only
+    created for top-level declarations and the sketch does not compile; a SerialMonitor has no such globals.)"""
+    hdr = HDR.replace("mon = SerialMonitor(9600)\n", "")
+    out = []
+    wraps = [("if 1 == 1:", ""), ("try:", "except:\n    pass\n"), ("for once in range(1):", ""), ("w = 1\nwhile w > 0:\n    w -= 1", "")]
+    for head, tail in wraps:
+        out.append(hdr + f"{head}\n    log = SerialMonitor(115200)\n{tail}log.write(\"ready\")\nlog.write(7)\n")
+    out.append(hdr + "def start():\n    port = SerialMonitor(57600)\n    port.write(\"up\")\n    return 1\nq = start()\nr = start()\n")
+    out.append(hdr + "count = 0\nwhile True:\n    count += 1\n    if count > 0:\n        chan = SerialMonitor(9600)\n        chan.write(count)\n    sleep(5)\n")
+    out.append(hdr + "count = 0\nwhile True:\n    count += 1\n    for once in range(1):\n        chan = SerialMonitor(19200)\n        chan.write(count)\n    sleep(5)\n")
+    return out
+
+
 def mixed(seed_parts, n_prog=30, n_promo=20, n_dev=10):
     rng = rng_for(*seed_parts, "corpus")
     scripts = [prog.generate((*seed_parts, "corpus", i), "clean")["source"] for i in range(n_prog)]
